@@ -7,6 +7,12 @@ HERE = os.path.dirname(os.path.abspath(__file__))
 
 # property -> (technique, level text, level note, design ref)
 CLAIMED = {
+    "C03": (
+        "runtime reference-model monitor: every clip output is solved back into the input triangle's (u,v) parameter plane in f64 and compared with an independent 2-D convex clip (area bounds, point probes, attribute field, winding), plus bit-exact metamorphic checks (unchanged-if-inside, batch independence)",
+        "Each generated clip-space triangle (integer and half-integer lattices incl. the full 5^9 lattice in the thorough tier, random w of either sign with on-plane and ±1-ulp coordinates, frustum-surrounding and degenerate triangles; seven attribute types) is clipped by the real view_frustum::clip and the whole output is judged: no vertex outside any plane beyond 1e-5·scale, every vertex on the input plane and inside the input triangle, attributes equal to the input's linear field, winding kept, covered area between the inside part shrunk and grown by the rounding band, random parameter points covered exactly once/never, wholly-inside ⇒ bit-identical, outside-one-plane ⇒ empty, batch ≡ concatenation bit-for-bit. Held on the executions observed.",
+        "f64 arithmetic on exact f32 inputs; (u,v)-based checks are skipped (and counted) for inputs whose scale/min-altitude exceeds 1e3. Rounding band 1e-5·scale follows the repo's own 1.00001 NDC tolerance.",
+        "DESIGN.md §5 C03",
+    ),
     "C12": (
         "runtime reference-model monitor: self-describing texels + integer floor/mod/clamp oracle over an enumerated coordinate palette × all texture sizes, panic monitor; Miri on a reduced workload (thorough)",
         "Every sampler entry point is called on every texture size up to a bound (owned and borrowed-from-poisoned-parent) with an adversarial coordinate palette (every integer ±1 ulp, ±2^k ±1 ulp up to 2^33, inf, NaN, extremes) plus random pairs; the returned texel (which encodes its own coordinates) is compared with an exact integer oracle, panics are caught, poison texels detect out-of-region reads. Held-on-what-was-observed, not a proof.",
